@@ -503,6 +503,28 @@ func pointFull(kind Kind, res unsafe.Pointer, st *int32, chp unsafe.Pointer, tag
 		return
 	}
 
+	// While the execution has a single thread (set-up before the first spawn, sequential cells) there is nothing to
+	// choose and nothing to order: an operation that is enabled just proceeds, unrecorded. A blocking one (lock held,
+	// channel, join, poll) takes the full path, where "no enabled thread" is reported as a deadlock.
+	if nthreads == 1 && soloSteps < soloMax {
+		switch kind {
+		case KLock:
+			if *st == 0 {
+				soloSteps++
+				return
+			}
+		case KRLock:
+			if *st >= 0 {
+				soloSteps++
+				return
+			}
+		case KRecv, KSend, KJoin, KWGWait, KPoll, KEnv:
+		default:
+			soloSteps++
+			return
+		}
+	}
+
 	me := current
 	t := &threads[me]
 	t.kind = kind
@@ -780,8 +802,15 @@ func Run(pfx []int8, msk []uint32, seen *keySet, prune bool, body func()) *Resul
 //go:norace
 func setActive(v bool) { active = v }
 
+// soloSteps counts the scheduling points passed on the single-thread fast path of the current execution; beyond
+// soloMax the full path (with its step horizon) takes over, so that an endless loop still ends.
+var soloSteps int64
+
+const soloMax = 1 << 26
+
 //go:norace
 func resetExec() {
+	soloSteps = 0
 	active = false
 	aborting = false
 	baton = -1
